@@ -413,7 +413,7 @@ class SubscriptionsManagerBase:
         else:
             unsubscribe_response = evt_types.UnsubscribeResponse()
             response = self._msg_factory.mk_reply_soap_message(request_data, unsubscribe_response)
-            subscription.unsubscribed_at = time.time()  # allow housekeeping to delete it delayed.
+            subscription.unsubscribed_at = time.monotonic()  # allow housekeeping to delete it delayed.
         return response
 
     def on_get_status_request(self, request_data: RequestData) -> CreatedMessage:
@@ -550,7 +550,7 @@ class SubscriptionsManagerBase:
         self._run_housekeeping_thread = True
         while self._run_housekeeping_thread:
             time.sleep(1)
-            now = time.time()
+            now = time.monotonic()  # same clock as unsubscribed_at; immune to wall clock changes
             with self._subscriptions.lock:
                 obsolete_subscriptions = [
                     s
